@@ -144,7 +144,7 @@ PROPS = {
     'C01': dict(
         level='proof',
         kani=[dict(package='aldrin-core', injections=[KANI_CORE_BUF, KANI_CORE_KEY, KANI_CORE_DESER, KANI_CORE_CONT],
-                   jobs=5)],
+                   jobs=5, harness_timeout_thorough=3600)],
         trusted_base=TB_KANI + TB_STUB + ['bytes crate (Buf for &[u8], BytesMut) is verified as compiled'],
         assumptions=['container obligations are bounded to 2 elements (labelled bounded, not counted as proved)'],
         undecided_clauses=[
